@@ -505,7 +505,9 @@ func (p *Prog) decoderSigs(tb *ieTables) (map[string]codecSig, []string) {
 		arg := c.Call.Args[1]
 		if valNil, ok := st.bools["nil:"+st.key(valParam)]; ok && valNil {
 			// the value is absent: the constructor must get the zero value
-			r := st.resolve(arg)
+			// conversions and Float*frombits of zero are zero
+			_, r := peelChain(st, arg)
+			r = st.resolve(r)
 			zero := false
 			if k, ok := r.(*ssa.Const); ok {
 				zero = k.Value == nil || k.Value.ExactString() == "0" || k.Value.ExactString() == "false" || k.Value.ExactString() == `""`
